@@ -242,15 +242,20 @@ def analyse_get(F, R, getb, ctx, body, param, extents, depth=0):
 
 
 def get_is_failstop(body, bi):
-    """the Option produced by the call in block bi is consumed by unwrap/expect/`?`, or branched on
-    with a None edge from which no return is reachable"""
+    """the Option produced by the checked lookup in block bi stops an out-of-range position: its
+    None outcome -- followed through copies, `ok_or`, `?` (Try::branch / from_residual), `as_ref`,
+    `copied`, `map` -- is unwrapped/expected, or is branched on with the failing arm unable to reach a
+    return of this body.  A substitute value (`or`, `unwrap_or`, ..) or a failing arm that returns
+    something makes it not fail-stop."""
     t = body.term(bi)
-    dest = t["dest"]["l"]
-    # locals that hold (copies / refs of) the result
-    holders = {dest}
+    # local -> discriminant value of the *failing* variant
+    failing = {t["dest"]["l"]: "0"}
+    SAME = {"as_ref", "as_mut", "copied", "cloned", "map", "as_deref", "inspect"}
     changed = True
-    while changed:
+    rounds = 0
+    while changed and rounds < 8:
         changed = False
+        rounds += 1
         for x in body.live_blocks():
             for st in body.blocks[x]["stmts"]:
                 if st["k"] != "assign" or st["place"]["p"]:
@@ -261,35 +266,52 @@ def get_is_failstop(body, bi):
                     src = rv["op"]["place"]["l"]
                 elif rv["k"] == "ref" and not rv["place"]["p"]:
                     src = rv["place"]["l"]
-                if src in holders and st["place"]["l"] not in holders:
-                    holders.add(st["place"]["l"])
+                if src in failing and st["place"]["l"] not in failing:
+                    failing[st["place"]["l"]] = failing[src]
                     changed = True
+            tt = body.term(x)
+            if tt["k"] == "call" and tt["args"] and tt["target"] is not None and not tt["dest"]["p"]:
+                a0 = tt["args"][0]
+                if a0["k"] in ("copy", "move") and not a0["place"]["p"] and a0["place"]["l"] in failing:
+                    tg = callee_tag(tt.get("callee"))
+                    d = tt["dest"]["l"]
+                    if d in failing:
+                        continue
+                    if tg[1] in ("ok_or", "ok_or_else"):
+                        failing[d] = "1"          # Result::Err
+                        changed = True
+                    elif tg[1] == "branch":
+                        failing[d] = "1"          # ControlFlow::Break
+                        changed = True
+                    elif tg[1] in SAME:
+                        failing[d] = failing[a0["place"]["l"]]
+                        changed = True
     ok_use = False
     for x in sorted(body.live_blocks()):
         tt = body.term(x)
         if tt["k"] == "call" and tt["args"]:
             a0 = tt["args"][0]
-            if a0["k"] in ("copy", "move") and not a0["place"]["p"] and a0["place"]["l"] in holders:
+            if a0["k"] in ("copy", "move") and not a0["place"]["p"] and a0["place"]["l"] in failing:
                 tg = callee_tag(tt.get("callee"))
-                if tg[1] in ("unwrap", "expect", "branch", "unwrap_unchecked"):
+                if tg[1] in ("unwrap", "expect", "unwrap_unchecked"):
                     ok_use = True
-                elif tg[1] in ("is_some", "is_none", "as_ref", "as_mut", "copied", "cloned", "map"):
+                elif tg[1] in SAME or tg[1] in ("ok_or", "ok_or_else", "branch", "is_some", "is_none", "is_ok", "is_err"):
                     continue
                 else:
                     return False  # or / unwrap_or / unwrap_or_else / ... : a substitute value
         for st in body.blocks[x]["stmts"]:
             if st["k"] == "assign" and st["rv"]["k"] == "discr" and not st["rv"]["place"]["p"] and \
-                    st["rv"]["place"]["l"] in holders:
-                # matched: the None arm (variant 0) must not reach a return
+                    st["rv"]["place"]["l"] in failing:
+                fv = failing[st["rv"]["place"]["l"]]
                 sw = body.term(x)
                 if sw["k"] == "switch":
-                    none_tgt = None
-                    for (v, tgt) in sw["arms"]:
-                        if v == "0":
-                            none_tgt = tgt
-                    if none_tgt is None:
-                        none_tgt = sw["otherwise"] if all(v != "0" for (v, _) in sw["arms"]) else None
-                    if none_tgt is not None and not body.can_return_avoiding(set(), frm=none_tgt):
+                    tgt = None
+                    for (v, tg_) in sw["arms"]:
+                        if v == fv:
+                            tgt = tg_
+                    if tgt is None and all(v != fv for (v, _) in sw["arms"]):
+                        tgt = sw["otherwise"]
+                    if tgt is not None and not body.can_return_avoiding(set(), frm=tgt):
                         ok_use = True
                     else:
                         return False
